@@ -420,7 +420,13 @@ def _v(kind, what, **extra):
 
 
 def link_kinds(t) -> list:
-    return sorted({leaf_kind(t, v) for _, v in entries(t) if not isinstance(v, dict) and v[0] in ("l", "o")})
+    ks = sorted({leaf_kind(t, v) for _, v in entries(t) if not isinstance(v, dict) and v[0] in ("l", "o")})
+    return ks if len(ks) <= 1 else ["several"]
+
+
+def _outside_sig(t) -> list:
+    ks = outside_kinds(t)
+    return ks if len(ks) <= 1 else ["several"]
 
 
 def judge_tree(t, sp):
@@ -442,7 +448,7 @@ def judge_tree(t, sp):
                     "outside-link-accepted",
                     f"the tree contains a symlink leading outside ({outside_kinds(t)}) but dir_hashsums returned "
                     f"{ev[accepted[0]][1]!r} for {sorted(map(list, accepted))}",
-                    outside=outside_kinds(t),
+                    outside=_outside_sig(t),
                 )
             )
         return viols, info
@@ -467,7 +473,6 @@ def judge_tree(t, sp):
             _v(
                 "creation-order-or-mtime-dependent",
                 f"same content built in two orders/mtimes: {r_f!r} != {r_r!r}",
-                links=link_kinds(t),
             )
         )
     # file entries == alg:hashlib
